@@ -31,7 +31,7 @@ ASSUMPTIONS = [
 
 SKIP = {"array_repr", "array_str"}
 OG = ConstOperands()
-FLOATY = {"mean", "true_divide", "det", "isclose", "allclose"}
+FLOATY = {"mean", "true_divide", "det", "isclose", "allclose", "power"}
 
 
 EDGE = {
@@ -176,12 +176,13 @@ def same(got, exp, fn, numpoly, path="result"):
     if tuple(got_arr.shape) != tuple(exp_arr.shape):
         return "shape", "%s: shape %s vs numpy %s" % (path, got_arr.shape, exp_arr.shape)
     if fn in FLOATY:
-        ok = numpy.allclose(got_arr, exp_arr, rtol=1e-12, atol=1e-12)
+        with numpy.errstate(all="ignore"):
+            ok = numpy.allclose(got_arr, exp_arr, rtol=1e-12, atol=1e-12, equal_nan=True)
     elif exp_arr.dtype.kind in "iu" and got_arr.dtype.kind in "iuf":
         # exact, also beyond 2**53 (numpy would compare a float result with the integers in floating point)
         ok = got_arr.ravel().tolist() == exp_arr.ravel().tolist()
     else:
-        ok = numpy.array_equal(got_arr, exp_arr)
+        ok = numpy.array_equal(got_arr, exp_arr, equal_nan=exp_arr.dtype.kind in "fc" and got_arr.dtype.kind in "fc")
     if not ok:
         return "value", "%s: %s vs numpy %s" % (path, numpy.array2string(got_arr, threshold=20),
                                                 numpy.array2string(exp_arr, threshold=20))
